@@ -641,7 +641,7 @@ pub fn all_mutations(ty: &str, out: &crate::spec::GenOut) -> Vec<FieldCase> {
             if text.as_bytes()[off] == b'\n' {
                 continue;
             }
-            for (name, rep) in [("dash", "-"), ("lower", "q"), ("space", " "), ("nonascii2", "é")] {
+            for (name, rep) in [("dash", "-"), ("plus", "+"), ("lower", "q"), ("space", " "), ("nonascii2", "é")] {
                 let mut t = text.clone();
                 t.replace_range(off..off + 1, rep);
                 v.push((format!("subst-{name}@{}:{l}", off - a), t));
